@@ -1,0 +1,99 @@
+// Verification hooks, compiled only with --cfg pakhi_verif
+use std::collections::HashMap;
+use crate::backend::interpreter::DataType;
+pub use crate::backend::mark_sweep::verif_collect;
+
+pub struct VerifState {
+    // Some(schedule): after the n-th statement executed by run() garbage is collected iff
+    // schedule[n % len] (never for empty schedule), allocation counter trigger is disabled
+    pub gc_schedule: Option<Vec<bool>>,
+    pub boundary: usize,
+    pub forced_collections: usize,
+    pub native_collections: usize,
+    // Some(n): the (n+1)-th statement interpreted fails with UnexpectedError("VERIF-STEP-LIMIT")
+    pub step_budget: Option<u64>,
+    pub steps: u64,
+    // state dumps before and after every forced collection
+    pub log_collections: bool,
+    pub collection_log: Vec<String>,
+}
+
+impl VerifState {
+    pub fn new() -> Self {
+        VerifState {
+            gc_schedule: None,
+            boundary: 0,
+            forced_collections: 0,
+            native_collections: 0,
+            step_budget: None,
+            steps: 0,
+            log_collections: false,
+            collection_log: Vec::new(),
+        }
+    }
+}
+
+fn dump_text(s: &str) -> String {
+    if s.is_empty() { return "-".to_string(); }
+    let cps: Vec<String> = s.chars().map(|c| (c as u32).to_string()).collect();
+    cps.join(",")
+}
+
+pub fn dump_value(d: &DataType) -> String {
+    match d {
+        DataType::Num(n) => format!("N{:016x}", n.to_bits()),
+        DataType::Bool(b) => format!("B{}", if *b { 1 } else { 0 }),
+        DataType::String(s) => format!("S{}", dump_text(s)),
+        DataType::List(i) => format!("L{}", i),
+        DataType::NamelessRecord(i) => format!("R{}", i),
+        DataType::Function(f) => {
+            let (start, args) = f.verif_parts();
+            let args: Vec<String> = args.iter().map(|a| dump_text(a)).collect();
+            format!("F{}({})", start, args.join(";"))
+        },
+        DataType::Nil => "Z".to_string(),
+    }
+}
+
+fn dump_usizes(v: &Vec<usize>) -> String {
+    let items: Vec<String> = v.iter().map(|i| i.to_string()).collect();
+    format!("[{}]", items.join(" "))
+}
+
+// entries sorted by key (code point order), so that hash order is not visible
+pub fn dump_state(scopes: &Vec<HashMap<String, Option<DataType>>>,
+                  lists: &Vec<Vec<DataType>>,
+                  free_lists: &Vec<usize>,
+                  records: &Vec<HashMap<String, DataType>>,
+                  free_records: &Vec<usize>,
+                  allocated: usize) -> String
+{
+    let mut out = String::new();
+    out.push_str("scopes=[");
+    for (i, scope) in scopes.iter().enumerate() {
+        if i > 0 { out.push(' '); }
+        let mut keys: Vec<&String> = scope.keys().collect();
+        keys.sort_by(|a, b| a.chars().cmp(b.chars()));
+        let items: Vec<String> = keys.iter().map(|k| {
+            let v = match scope.get(*k).unwrap() { Some(d) => dump_value(d), None => "U".to_string() };
+            format!("{}={}", dump_text(k), v)
+        }).collect();
+        out.push_str(&format!("{{{}}}", items.join(" ")));
+    }
+    out.push_str("] lists=[");
+    for (i, list) in lists.iter().enumerate() {
+        if i > 0 { out.push(' '); }
+        let items: Vec<String> = list.iter().map(|d| dump_value(d)).collect();
+        out.push_str(&format!("[{}]", items.join(" ")));
+    }
+    out.push_str(&format!("] free_lists={} recs=[", dump_usizes(free_lists)));
+    for (i, record) in records.iter().enumerate() {
+        if i > 0 { out.push(' '); }
+        let mut keys: Vec<&String> = record.keys().collect();
+        keys.sort_by(|a, b| a.chars().cmp(b.chars()));
+        let items: Vec<String> = keys.iter().map(|k| format!("{}={}", dump_text(k), dump_value(record.get(*k).unwrap()))).collect();
+        out.push_str(&format!("{{{}}}", items.join(" ")));
+    }
+    out.push_str(&format!("] free_recs={} alloc={}", dump_usizes(free_records), allocated));
+    out
+}
